@@ -8,6 +8,9 @@ CONSTANTS
   MaxEvents = 0
   MaxDeliver = 0
   MaxReinit = 0
+  EXPECTED = {1}
+  MaxBuf = 0
+  InitOrder = "snapshot-first"
 INVARIANTS Done TInv
 PROPERTIES TProps
 POSTCONDITION Post
